@@ -3,6 +3,8 @@ package util
 import (
 	"bytes"
 	"sync"
+
+	"github.com/scrapli/scrapligo/util/simhook"
 )
 
 // Queue is a simple queue structure to store and queue/requeue/dequeue bytes.
@@ -26,6 +28,9 @@ func NewQueue() *Queue {
 
 // Requeue prepends some bytes to the front of the queue.
 func (q *Queue) Requeue(b []byte) {
+	simhook.Acquire(q, "q")
+	defer simhook.Release(q, "q")
+
 	q.lock.Lock()
 	defer q.lock.Unlock()
 
@@ -34,19 +39,32 @@ func (q *Queue) Requeue(b []byte) {
 
 	q.depth++
 
+	simhook.Yield("q.depth.take")
+
 	<-q.depthChan
+
+	simhook.Yield("q.depth.put")
+
 	q.depthChan <- q.depth
 }
 
 // Enqueue queues some bytes at the end of the queue.
 func (q *Queue) Enqueue(b []byte) {
+	simhook.Acquire(q, "q")
+	defer simhook.Release(q, "q")
+
 	q.lock.Lock()
 	defer q.lock.Unlock()
 
 	q.queue = append(q.queue, b)
 	q.depth++
 
+	simhook.Yield("q.depth.take")
+
 	<-q.depthChan
+
+	simhook.Yield("q.depth.put")
+
 	q.depthChan <- q.depth
 }
 
@@ -58,6 +76,9 @@ func (q *Queue) Dequeue() []byte {
 		return nil
 	}
 
+	simhook.Acquire(q, "q")
+	defer simhook.Release(q, "q")
+
 	q.lock.Lock()
 	defer q.lock.Unlock()
 
@@ -66,7 +87,12 @@ func (q *Queue) Dequeue() []byte {
 	q.queue = q.queue[1:]
 	q.depth--
 
+	simhook.Yield("q.depth.take")
+
 	<-q.depthChan
+
+	simhook.Yield("q.depth.put")
+
 	q.depthChan <- q.depth
 
 	return b
@@ -78,6 +104,9 @@ func (q *Queue) DequeueAll() []byte {
 		return nil
 	}
 
+	simhook.Acquire(q, "q")
+	defer simhook.Release(q, "q")
+
 	q.lock.Lock()
 	defer q.lock.Unlock()
 
@@ -87,7 +116,12 @@ func (q *Queue) DequeueAll() []byte {
 
 	q.depth = 0
 
+	simhook.Yield("q.depth.take")
+
 	<-q.depthChan
+
+	simhook.Yield("q.depth.put")
+
 	q.depthChan <- q.depth
 
 	return bytes.Join(b, []byte{})
@@ -97,7 +131,12 @@ func (q *Queue) getDepth() int {
 	// rather than locking/unlocking to access the q.depth, we simply grab the depth from the
 	// depthChan and then put it back in and return the value we got. this should be slightly faster
 	// and less cpu than locking/unlocking
+	simhook.Yield("q.probe.take")
+
 	d := <-q.depthChan
+
+	simhook.Yield("q.probe.put")
+
 	q.depthChan <- d
 
 	return d
@@ -105,6 +144,9 @@ func (q *Queue) getDepth() int {
 
 // GetDepth returns the depth of the queue.
 func (q *Queue) GetDepth() int {
+	simhook.Acquire(q, "q")
+	defer simhook.Release(q, "q")
+
 	q.lock.RLock()
 	defer q.lock.RUnlock()
 
